@@ -81,6 +81,8 @@ pub struct Stats {
     // distinct measures
     pub fingerprints: BTreeSet<u64>,
     pub sites: BTreeSet<u64>,
+    /// (solver, dimension, field, user data) combinations in which a fault fired
+    pub fired_instantiations: BTreeSet<String>,
 
     // reach probes
     pub probes: BTreeMap<&'static str, u64>,
@@ -164,6 +166,7 @@ impl Stats {
         self.ref_calls_max = self.ref_calls_max.max(o.ref_calls_max);
         self.fingerprints.extend(o.fingerprints);
         self.sites.extend(o.sites);
+        self.fired_instantiations.extend(o.fired_instantiations);
         for (k, v) in o.probes {
             add(&mut self.probes, k, v);
         }
@@ -228,6 +231,10 @@ impl Stats {
                     add(&mut self.fired_by_payload, ispec.payload.name(), 1);
                     add(&mut self.fired_by_kind, ispec.kind.name(), 1);
                     add(&mut self.fired_by_drive, ispec.drive.name(), 1);
+                    let label = format!("{}<{},{},{}>", ispec.kind.name(), ispec.field.name(), ispec.dim.name(), ispec.data.name());
+                    if !self.fired_instantiations.contains(&label) {
+                        self.fired_instantiations.insert(label);
+                    }
                     if s.ended_by == EndedBy::UserErr {
                         self.surfaced += 1;
                         self.extra_polls_after_err += s.extra_none;
